@@ -7,13 +7,13 @@ namespace IstioModel.C04
 
 /-- Responses sent by one step. -/
 def responds (t : Ty) (y : Sys) : Step → Nat
-  | .serverRecv n =>
+  | .serverRecv n deliver =>
     match y.c2s with
     | [] => 0
     | m :: _ =>
       if n = "" then 0 else
       match shouldRespond y.srv m with
-      | .out true _ _ => 1
+      | .out true _ _ => if deliver then 1 else 0
       | _ => 0
   | .serverPush n => if n = "" then 0 else if (y.srv t).isSome then 1 else 0
   | _ => 0
@@ -25,35 +25,36 @@ def responses (t : Ty) (y : Sys) : List Step → Nat
 
 /-- The environment is quiet: the client only acknowledges / rejects, the server only handles requests. -/
 def Step.quiet : Step → Bool
-  | .serverRecv _ => true
+  | .serverRecv _ _ => true
   | .clientRecv _ => true
   | _ => false
 
-/-- A request that asks for nothing new: a rejection, or an acknowledgement (non-empty nonce) carrying the
+/-- A request that asks for nothing new: an acknowledgement or a rejection (non-empty nonce) carrying the
     client's current names `c`. -/
 def quietMsg (t : Ty) (c : List String) (m : Req) : Bool :=
-  m.ty = t && (m.err.isSome || (m.names = c && m.nonce ≠ ""))
+  m.ty = t && m.names = c && m.nonce ≠ ""
 
-/-- The server's record agrees with the client's names `c` and no forced response is pending. -/
+/-- The server's record agrees with the client's names `c`, something has been sent on the watch and no forced
+    response is pending. -/
 def Settled (t : Ty) (c : List String) (s : State) : Prop :=
   match s t with
   | none => c.isEmpty = true ∧ t.wildcard = false
-  | some w => w.always = false ∧ ∀ x, x ∈ w.names ↔ x ∈ c
+  | some w => w.always = false ∧ w.nonceSent ≠ "" ∧ ∀ x, x ∈ w.names ↔ x ∈ c
 
 def settledB (t : Ty) (c : List String) (s : State) : Bool :=
   match s t with
   | none => c.isEmpty && !t.wildcard
-  | some w => !w.always && w.names.all (fun x => c.contains x) && c.all (fun x => w.names.contains x)
+  | some w => !w.always && w.nonceSent != "" && w.names.all (fun x => c.contains x) && c.all (fun x => w.names.contains x)
 
 theorem settledB_iff (t : Ty) (c : List String) (s : State) : settledB t c s = true ↔ Settled t c s := by
   unfold settledB Settled
   cases s t with
   | none => simp
   | some w =>
-    simp only [Bool.and_eq_true, Bool.not_eq_true', List.all_eq_true, List.contains_iff_mem, and_assoc]
+    simp only [Bool.and_eq_true, Bool.not_eq_true', List.all_eq_true, List.contains_iff_mem, and_assoc, bne_iff_ne, ne_eq]
     constructor
-    · rintro ⟨h1, h2, h3⟩; exact ⟨h1, fun x => ⟨h2 x, h3 x⟩⟩
-    · rintro ⟨h1, h2⟩; exact ⟨h1, fun x hx => (h2 x).mp hx, fun x hx => (h2 x).mpr hx⟩
+    · rintro ⟨h1, h0, h2, h3⟩; exact ⟨h1, h0, fun x => ⟨h2 x, h3 x⟩⟩
+    · rintro ⟨h1, h0, h2⟩; exact ⟨h1, h0, fun x hx => (h2 x).mp hx, fun x hx => (h2 x).mpr hx⟩
 
 instance (t : Ty) (c : List String) (s : State) : Decidable (Settled t c s) :=
   decidable_of_iff _ (settledB_iff t c s)
@@ -61,19 +62,5 @@ instance (t : Ty) (c : List String) (s : State) : Decidable (Settled t c s) :=
 /-- The bound: what is in flight and not quiet counts twice, an unsettled record once. -/
 def potential (t : Ty) (y : Sys) : Nat :=
   2 * (y.c2s.filter (fun m => !quietMsg t y.cnames m)).length + (if Settled t y.cnames y.srv then 0 else 1)
-
-/-- A quiet request that IS answered carries the client's names. -/
-theorem quiet_answered_names (t : Ty) (c : List String) (s : State) (m : Req) (sub : List String) (s' : State)
-    (hq : quietMsg t c m = true) (h : shouldRespond s m = .out true sub s') : m.ty = t ∧ m.names = c := by
-  simp only [quietMsg, Bool.and_eq_true, decide_eq_true_eq, Bool.or_eq_true] at hq
-  obtain ⟨hty, hq⟩ := hq
-  refine ⟨hty, ?_⟩
-  rcases hq with hq | ⟨hn, _⟩
-  · cases he : m.err with
-    | none => simp [he] at hq
-    | some msg =>
-      rw [nack_silent s m msg he] at h
-      injection h with hb; cases hb
-  · exact hn
 
 end IstioModel.C04
